@@ -187,9 +187,13 @@ def get_true_caller() -> types.FrameType:
     # Return the frame that called into the traceback-producing machinery
     caller: Optional[types.FrameType] = sys._getframe(1)
 
-    def is_mine(name: str) -> bool:
-        return name.startswith("stackscope.") and not name.startswith(
-            "stackscope._tests."
+    def is_mine(name: object) -> bool:
+        # (whatever a caller's globals have as __name__: nothing at all,
+        # when it is code run by exec() in a namespace of its own)
+        return (
+            isinstance(name, str)
+            and name.startswith("stackscope.")
+            and not name.startswith("stackscope._tests.")
         )
 
     while caller is not None and (
